@@ -186,7 +186,9 @@ class H5Reader:
                 if indices is None:
                     return None
 
-                array = group["Data"].get(label.replace("/", "\u2044"))
+                array = None
+                if "Data" in group:
+                    array = group["Data"].get(label.replace("/", "\u2044"))
                 if array is None:
                     array = group.get(label.replace("/", "\u2044"))
 
